@@ -18,7 +18,9 @@ func stringify(v *Val, inProcess util.PtrSet) string {
 		if inProcess.Contains(v) {
 			return fmt.Sprintf("recursive-val %s@%p", v.Type, v)
 		} else {
+			// 只标记当前路径: 同一个值被多处引用 (DAG) 不是递归
 			inProcess.Add(v)
+			defer inProcess.Remove(v)
 		}
 	}
 
